@@ -11,6 +11,7 @@ CLAIM = (
     "uniqueness source (uuid) and lives in cache_path's directory; (3) the rename is outside and after the `with` block that dumps, "
     "and the dump dominates it; (4) a `finally` of the enclosing try unlinks tmp_path with missing_ok=True; (5) the reader opens only "
     "cache_path, read-only, under an existence test, and the directory is created with exist_ok=True."
+    " KEY (shared with C23): the entry is named by the temp dir, the package version and the full sha256 of the text that is parsed, so a run never reads an entry of another model text or another release. A load_model that publishes without renaming a temporary file is reported as a PROTO violation."
 )
 NOTE = (
     "Assumes POSIX rename atomicity within one file system and uuid4 uniqueness; given those, (1)-(5) imply that readers never see "
@@ -22,6 +23,9 @@ TECHNIQUE = "static analysis: effect enumeration + data origins + dominance/orde
 def run(ctx) -> None:
     p = ctx.p
     ctx.rule("PROTO", "write-temp-then-rename protocol shape in run.load_model", floor=8)
+    ctx.rule("KEY", "the entry is named by temp dir, package version and the full sha256 of the text that is parsed: no foreign entry (shared with C23)", floor=3)
+    from . import c23 as _c23
+    _c23.check_key(ctx, "KEY")
     f = p.func("run:load_model")
     art = artefacts(ctx.ty, f)
     cfg = art.cfg
@@ -38,7 +42,8 @@ def run(ctx) -> None:
 
     # (1) creators of cache_path
     renames = [e for e in effs if e.op in ("rename", "replace")]
-    ctx.require_anchor(len(renames) >= 1, "load_model renames a temporary file")
+    if not renames:
+        ctx.fail("PROTO", f, f.node, "load_model publishes the cache entry without renaming a temporary file: a crash or a concurrent reader can observe a partially written entry under the published name", construct="publish by rename")
     for e in effs:
         if e.kind != "write":
             continue
@@ -80,6 +85,8 @@ def run(ctx) -> None:
         ctx.fail("PROTO", f, f.node, ("tmp_path is not unique per run" if not uniq else "tmp_path is not a sibling of cache_path (rename may cross file systems)") + f" (origins {sorted(og)})", construct="tmp_path origin")
 
     # (3) ordering
+    if not renames:
+        return  # already reported: nothing is published by rename
     ren = renames[0]
     ren_node = node_of[id(ren.call)]
     inside_with = with_stmt is not None and any(n is ren.call for n in ast.walk(with_stmt))
